@@ -270,7 +270,7 @@ def gen_vcf(draw, *, nsamples=(1, 3), ncontigs=(1, 3), nrecords=(1, 12), ploidy_
             missing=True, partial_missing=True, no_gt_records=False, multiallelic=True, symbolic=False,
             duplicates=True, no_alt=False, phasing=("none", "PS", "HP"), extra_fields=True, ps_type="Integer",
             kinds=("snv", "ins", "del", "mnp"), interleave=True, hom_phased=False, stale_ps=False, filters=True,
-            max_alleles_in_gt=None, modes=("het", "het", "het", "hom", "any", "missing", "partial"), phase_odds=3,
+            max_alleles_in_gt=None, mixed_separators=False, unsorted_gt=False, modes=("het", "het", "het", "hom", "any", "missing", "partial"), phase_odds=3,
             new_set_odds=2):
     """Generic VCF model generator. `phasing`: encodings that may be chosen *per sample*.
     Returns (model, truth) where truth[(record index, sample index)] describes the call:
@@ -351,6 +351,8 @@ def gen_vcf(draw, *, nsamples=(1, 3), ncontigs=(1, 3), nrecords=(1, 12), ploidy_
                     if mode == "partial":
                         alleles = [draw(st.integers(0, amax)) for _ in range(ploidy)]
                         alleles[draw(st.integers(0, ploidy - 1))] = None
+                    if unsorted_gt and all(a is not None for a in alleles) and draw(st.booleans()):
+                        alleles = sorted(alleles, reverse=True)
                     complete = all(a is not None for a in alleles)
                     het = complete and len(set(alleles)) > 1
                     e = enc[si]
@@ -393,6 +395,13 @@ def gen_vcf(draw, *, nsamples=(1, 3), ncontigs=(1, 3), nrecords=(1, 12), ploidy_
                         call["PS"] = str(draw(st.integers(1, 999)))
                         any_ps = True
                     call["GT"] = gt_string(alleles, phased_flag)
+                    if mixed_separators and len(alleles) >= 3 and draw(st.integers(0, 3)) == 0:
+                        # VCF allows both separators inside one polyploid genotype ('1|0/1')
+                        seps = [draw(st.sampled_from("/|")) for _ in range(len(alleles) - 1)]
+                        if "|" in seps:
+                            parts = ["." if a is None else str(a) for a in alleles]
+                            call["GT"] = parts[0] + "".join(sp + x for sp, x in zip(seps, parts[1:]))
+                            t["mixed_separators"] = True
                     t["alleles"] = tuple(alleles)
                     t["gt_phased_flag"] = phased_flag
                 for d in rec_extra:
